@@ -14,12 +14,15 @@ import (
 	"regexp"
 	"strings"
 	"sync/atomic"
+	"syscall"
 	"time"
 )
 
 func init() { streams["repeat"] = streamRepeat }
 
 type repeatCase struct {
+	manyRuns bool       // the order of something may depend on map iteration: many more repetitions
+	equalTo  [][]string // other argument lists that must give the same bytes
 	kind      string
 	args      []string
 	stdin     []byte
@@ -101,6 +104,44 @@ func streamRepeat() {
 	for _, t := range []string{"C[1] R[1", "C[1] ]", "", "C[1]{txt=a,lic=b,mrk=c,zzz=d,aaa=e}", "C[1]{key=Am} E7[1]{key=C}"} {
 		add(repeatCase{kind: "text-parse", args: []string{"text", "parse"}, stdin: []byte(t), readsInput: true})
 		add(repeatCase{kind: "text-conv-syllable", args: []string{"text", "conv", "syllable"}, stdin: []byte(t), readsInput: true, conv: &convCase{"syllable", "", []byte(t)}})
+	}
+	// inputs that begin with a byte order mark or contain line separators: every route must treat them alike
+	for _, t := range []string{"\ufeffC[1] G_7[1]", "C[1] ;c\u2028D[1]\nE[1]", "\ufeff", "C[1]\ufeff"} {
+		add(repeatCase{kind: "text-special", args: []string{"text", "parse"}, stdin: []byte(t), readsInput: true})
+		add(repeatCase{kind: "text-special", args: []string{"text", "conv", "syllable"}, stdin: []byte(t), readsInput: true, conv: &convCase{"syllable", "", []byte(t)}})
+	}
+	for _, y := range []string{"\ufeff- values: [1]\n", "- values: [1]\n  meta: {txt: \"\ufeffx\"}\n"} {
+		for _, a := range [][]string{{"write"}, {"write", "event"}, {"write", "conv", "-c", "cmt"}, {"write", "parse"}} {
+			add(repeatCase{kind: "yaml-special", args: a, stdin: []byte(y), readsInput: true})
+		}
+	}
+	// the same dictionary file named more than once, among others that define the same chord differently
+	{
+		dir := filepath.Join(outDir, "repeat-dicts")
+		must(os.MkdirAll(dir, 0o755))
+		must(os.WriteFile(filepath.Join(dir, "a.yml"), []byte("- name: Clash\n  meta: {display: cl}\n  attributes: [Perfect1, Major3]\n"), 0o644))
+		must(os.WriteFile(filepath.Join(dir, "b.yml"), []byte("- name: Clash\n  meta: {display: cl}\n  attributes: [Perfect1, Minor3]\n- name: Other\n  meta: {display: ot}\n  extends: Clash\n"), 0o644))
+		must(os.WriteFile(filepath.Join(dir, "c.yml"), []byte("- name: Third\n  meta: {display: cl}\n  attributes: [Perfect1, Perfect5]\n"), 0o644))
+		a, b, c := filepath.Join(dir, "a.yml"), filepath.Join(dir, "b.yml"), filepath.Join(dir, "c.yml")
+		doc := []byte("- chord: {degree: \"1\", name: cl}\n  values: [1]\n- chord: {degree: \"1\", name: ot}\n  values: [1]\n")
+		for _, files := range [][]string{{a, b, a}, {b, a, b}, {a, b, c, a, b}, {a, a}, {c, b, a, c}, {a + "," + b + "," + a}} {
+			var fl []string
+			for _, f := range files {
+				fl = append(fl, "--chord", f)
+			}
+			add(repeatCase{kind: "dict-paths", args: append([]string{"write", "event"}, fl...), stdin: doc, readsInput: true, manyRuns: true})
+			add(repeatCase{kind: "dict-paths", args: append([]string{"info", "chord", "list"}, fl...), manyRuns: true})
+			add(repeatCase{kind: "dict-paths", args: append([]string{"info", "chord", "describe", "-t", "Ccl"}, fl...), manyRuns: true})
+		}
+	}
+	// the two spellings of a switch
+	for _, t := range []string{"Caug", "F#m7b5", "Bbdim7"} {
+		add(repeatCase{kind: "switch", args: []string{"info", "chord", "describe", "-t", t}, equalTo: [][]string{{"info", "chord", "describe", "-t", t, "--precedeSharp=false"}, {"info", "chord", "describe", "-t", t, "-s=false"}}})
+		add(repeatCase{kind: "switch", args: []string{"info", "chord", "describe", "-t", t, "-s"}, equalTo: [][]string{{"info", "chord", "describe", "-t", t, "--precedeSharp=true"}, {"info", "chord", "describe", "-t", t, "--precedeSharp"}}})
+	}
+	for _, a := range []string{"Augmented4", "Minor2", "Diminished5"} {
+		add(repeatCase{kind: "switch", args: []string{"info", "attr", "describe", "-t", a, "-r", "C"}, equalTo: [][]string{{"info", "attr", "describe", "-t", a, "-r", "C", "--precedeSharp=false"}}})
+		add(repeatCase{kind: "switch", args: []string{"info", "attr", "describe", "-t", a, "-r", "C", "-s"}, equalTo: [][]string{{"info", "attr", "describe", "-t", a, "-r", "C", "-s=true"}}})
 	}
 	// empty input for every command that reads one
 	for _, a := range [][]string{{"text", "parse"}, {"text", "conv", "syllable"}, {"text", "conv", "degree"}, {"write"}, {"write", "event"},
@@ -190,11 +231,26 @@ func streamRepeat() {
 		bclass := base.class()
 		report := func(what, extra, observed string) {
 			problems = append(problems, fmt.Sprintf(`{"property":"C12","what":%q,"input":%q,"observed":%q}`, what, desc(extra), observed))
+			// the same observation also speaks against the property whose subject it is
+			also := ""
+			switch {
+			case strings.HasPrefix(what, "with -o naming the input FILE") && len(c.args) > 1 && c.args[0] == "write" && c.args[1] == "conv":
+				also = "C10"
+			case strings.HasPrefix(what, "two spellings of the same arguments"):
+				also = "C15"
+			}
+			if also != "" {
+				problems = append(problems, fmt.Sprintf(`{"property":%q,"what":%q,"input":%q,"observed":%q}`, also, what, desc(extra), observed))
+			}
 		}
 		diff := func(a, b []byte) string {
 			return fmt.Sprintf("first=%q other=%q", trunc(firstDiff(a, b)), trunc(firstDiff(b, a)))
 		}
-		for k := 0; k < reps; k++ {
+		nreps := reps
+		if c.manyRuns {
+			nreps = pick(40, 120)
+		}
+		for k := 0; k < nreps; k++ {
 			cl, out, _ := runVariant(i, fmt.Sprintf("r%d", k), c, procsList[k%len(procsList)], false, "stdin", false)
 			if cl != bclass || !bytes.Equal(out, base.stdout) {
 				report("a repeated run printed different bytes or ended differently", "GOMAXPROCS="+procsList[k%len(procsList)], fmt.Sprintf("class %s vs %s; %s", bclass, cl, diff(base.stdout, out)))
@@ -238,6 +294,48 @@ func streamRepeat() {
 				report("with -o FILE something is still printed on stdout", "-o FILE", fmt.Sprintf("stdout=%q", trunc(so)))
 			case cl != "ok" && len(out) != 0:
 				report("a failing command left bytes in the -o file", "-o FILE", fmt.Sprintf("file=%q", trunc(out)))
+			}
+		}
+		for _, other := range c.equalTo {
+			o := runCrdEnv(c.stdin, 30*time.Second, "", other...)
+			if o.class() != bclass || !bytes.Equal(o.stdout, base.stdout) {
+				report("two spellings of the same arguments give different results", "vs: crd "+strings.Join(other, " "), fmt.Sprintf("class %s vs %s; %s", bclass, o.class(), diff(base.stdout, o.stdout)))
+			}
+		}
+		if c.readsInput {
+			// FILE = /dev/stdin, and FILE = a named pipe
+			o := runCrdEnv(c.stdin, 30*time.Second, "", append(append([]string{}, c.args...), "/dev/stdin")...)
+			if o.class() != bclass || !bytes.Equal(o.stdout, base.stdout) {
+				report("the result differs when FILE is /dev/stdin", "/dev/stdin", fmt.Sprintf("class %s vs %s; %s; stderr %q", bclass, o.class(), diff(base.stdout, o.stdout), trunc(o.stderr)))
+			}
+			dir := filepath.Join(outDir, fmt.Sprintf("repeat-%d-fifo", i))
+			must(os.MkdirAll(dir, 0o755))
+			fifo := filepath.Join(dir, "pipe")
+			if err := syscall.Mkfifo(fifo, 0o644); err == nil {
+				go func() {
+					if f, err := os.OpenFile(fifo, os.O_WRONLY, 0); err == nil {
+						f.Write(c.stdin)
+						f.Close()
+					}
+				}()
+				o := runCrdEnv(nil, 30*time.Second, "", append(append([]string{}, c.args...), fifo)...)
+				if o.class() != bclass || !bytes.Equal(o.stdout, base.stdout) {
+					report("the result differs when FILE is a named pipe", "FIFO", fmt.Sprintf("class %s vs %s; %s; stderr %q", bclass, o.class(), diff(base.stdout, o.stdout), trunc(o.stderr)))
+				}
+			}
+			os.RemoveAll(dir)
+			// converting in place: -o names the input FILE
+			if bclass == "ok" && len(c.stdin) > 0 {
+				dir := filepath.Join(outDir, fmt.Sprintf("repeat-%d-inplace", i))
+				must(os.MkdirAll(dir, 0o755))
+				f := filepath.Join(dir, "piece")
+				must(os.WriteFile(f, c.stdin, 0o644))
+				o := runCrdEnv(nil, 30*time.Second, "", append(append([]string{}, c.args...), f, "-o", f)...)
+				got, _ := os.ReadFile(f)
+				if o.class() != bclass || !bytes.Equal(got, base.stdout) {
+					report("with -o naming the input FILE the file does not end up holding the result", "-o FILE FILE", fmt.Sprintf("class %s vs %s; %s", bclass, o.class(), diff(base.stdout, got)))
+				}
+				os.RemoveAll(dir)
 			}
 		}
 		if c.readsInput && len(c.stdin) == 0 {
